@@ -135,6 +135,10 @@ def scenario(run, binp, k, mode, flags, faults, ending="eof", ntraffic=0):
         listen = "203.0.113.9:4444"
     if "listen_noport" in faults:
         listen = "203.0.113.9"
+    if "listen_badport" in faults:          # never becomes a socket address at all
+        listen = "127.0.0.1:65536"
+    if "listen_badservice" in faults:
+        listen = "127.0.0.1:no-such-service"
     if "listen_inuse" in faults:
         hold = socket.socket(); hold.bind(("127.0.0.1", 0)); hold.listen(1); listen = "127.0.0.1:%d" % hold.getsockname()[1]
     argv += ["-listen-address", listen]
@@ -155,6 +159,8 @@ def scenario(run, binp, k, mode, flags, faults, ending="eof", ntraffic=0):
     env.pop("CURLREVSHELL_LOG", None)
     if ntraffic:
         env["GOGC"] = "1"                   # collect garbage eagerly: whatever only a finalizer keeps alive goes away during the session
+    if "cache_fsize" in faults:             # the cache file can be created but not written: the process may not write files beyond 512 bytes
+        argv = ["/bin/sh", "-c", 'ulimit -f 1; exec "$@"', "sh"] + argv
     keys = {"eof": b"\x04", "ctrl-c": b"\x03"}.get(ending)
     rc, out, same, tty = spawn(argv, env, d, mode, keys=keys if mode == "pty" else None, ntraffic=ntraffic)
     if hold:
@@ -183,7 +189,8 @@ def check(run):
     if rc:
         run.oblige("the program builds", False, (o + e).decode()[-2000:])
         return
-    singles = ["listen_nonlocal", "listen_inuse", "listen_noport", "cache_damaged", "cache_unwritable", "cache_dangling", "log_bad"]
+    singles = ["listen_nonlocal", "listen_inuse", "listen_noport", "listen_badport", "listen_badservice", "cache_damaged", "cache_unwritable", "cache_dangling",
+               "cache_fsize", "log_bad"]
     plan = []
     for mode in ("pty", "pty-stdin-null", "notty"):
         plan.append((mode, set(), set()))
@@ -215,7 +222,8 @@ def check(run):
             s["flags"] = sorted(set(s["flags"]) - {"h"} | {"print-default-template"})
     vlib.judge_stream(run, "scenarios", IMPORTS, "case", [{k: v for k, v in s.items() if k != "output"} for s in results], results,
                       lambda i, r: term(r), CLAUSES, (10,),
-                      "the real binary, for every single start-up fault (non-local / in-use / port-less unusable listen address, damaged / unwritable "
+                      "the real binary, for every single start-up fault (non-local / in-use / port-less / out-of-range-port / unknown-service listen address, damaged / unwritable / "
+                      "creatable-but-not-writable (RLIMIT_FSIZE) "
                       "certificate cache, cache path that is a dangling symbolic link, unopenable log file, missing Ctrl+I source, Ctrl+I source directory with a dangling link), pairs of them, each informational flag (-print-default-template, "
                       "-print-ctrl-i with and without source, -h) with and without faults, x three terminal situations: a controlling pty on stdin/stdout, a "
                       "controlling pty with stdin from /dev/null, no controlling terminal (setsid, /dev/null); normal exits by Ctrl+D and Ctrl+C typed into "
